@@ -608,7 +608,7 @@ def _run(eng, contract, fn, res):
         if isinstance(oc, tuple) and oc[0] == "return":
             val = oc[1]
             canary_state = canary_state or s2.clone()
-            for j, post in enumerate(contract.ensures):
+            for j, post in enumerate(list(contract.ensures) + list(contract.ensures_t1)):
                 g = eng.eval_spec(s2, post, {"result": val})
                 eng.oblige(s2, g, f"postcondition {j}: {post}", "post", None)
         elif isinstance(oc, tuple) and oc[0] == "raise":
